@@ -6,11 +6,11 @@ import GoMailModel.Proofs.Idem
   Proved: (1) `state_is_fixpoint`: everything a render writes into the Msg - generic header defaults
   (Date, Message-ID, MIME-Version, User-Agent / X-Mailer), the boundary cache, the header cache of
   every file - is left unchanged by the next render, whatever clock and random source yield then;
-  (2) `second_render_equals_first`: for multipart messages the bytes of the second render are the
-  bytes of the first; (3) a render never touches content; the encoding applied to a file body never
+  (2) `second_render_equals_first`: the bytes of the second render are the bytes of the first (every
+  message without deleted parts, no S/MIME); (3) a render never touches content; the encoding applied to a file body never
   depends on the header cache (the repaired defect); a cached boundary is reused. The different
-  output paths (Write, Reader, files, Send) all go through WriteTo; that they agree byte for byte,
-  single-part messages and S/MIME re-renders are checked by the run on histories of 2..5 renders.
+  output paths (Write, Reader, files, Send) all go through WriteTo; that they agree byte for byte, and
+  S/MIME re-renders, are checked by the run on histories of 2..5 renders.
 -/
 namespace GoMail.Props.C11
 open GoMail GoMail.Mime
@@ -59,13 +59,12 @@ theorem state_is_fixpoint (s : MsgState) (e1 e2 : Entropy) (h : RenderOK s e1) :
     (writeMsg (writeMsg s e1 false).2 e2 false).2.attachments = (writeMsg s e1 false).2.attachments :=
   render_state_fixpoint s e1 e2 h
 
-/-- **The second render produces the bytes of the first** (messages that need a multipart layer, no
-    deleted parts): whatever Date, Message-ID and boundaries the second render would draw. -/
+/-- **The second render produces the bytes of the first** (every message without deleted parts, single
+    part or multipart, no S/MIME): whatever Date, Message-ID and boundaries the second render would draw. -/
 theorem second_render_equals_first (s : MsgState) (e1 e2 : Entropy)
-    (hp : ∀ p ∈ s.parts, p.deleted = false ∧ p.smime = false)
-    (hl : hasMixed s = true ∨ hasRelated s = true ∨ hasAlt s = true) (h : RenderOK s e1) :
+    (hp : ∀ p ∈ s.parts, p.deleted = false ∧ p.smime = false) (h : RenderOK s e1) :
     planBytes (writeMsg (writeMsg s e1 false).2 e2 false).1.acts = planBytes (writeMsg s e1 false).1.acts :=
-  render_idempotent s e1 e2 hp hl h
+  render_idempotent_all s e1 e2 hp h
 
 /-- the hypotheses are satisfiable: a fresh message with two parts and an attachment, 30-character
     random boundaries -/
